@@ -18,7 +18,8 @@ EXTENDS Naturals, Sequences, FiniteSets, TLC, Json
 CONSTANTS Behs,        \* behaviours of the designated function
           Positions,   \* where the designated function sits in the chain
           Handlers,    \* "default" | "contextual" | "reraise"
-          ReKinds,     \* render_error: "default" | "raises" | "other" | "nonresp"
+          ReKinds,     \* render_error: "default" | "raises" (any exception) | "raiseshttp" (it RAISES an HTTPException: a failure like
+                       \* any other) | "other" (it returns another error) | "nonresp"
           Siblings,    \* subset of BOOLEAN: TRUE = every behaviour route is preceded by a route with the same pattern that is
                        \* restricted to a method no request uses, so DispatchState.allowed_methods is non-empty whenever the
                        \* request falls through to the catch-all
@@ -122,7 +123,7 @@ RenderError ==
     /\ pc = "renderError"
     /\ CASE cfg.re = "default" -> out' = [k |-> "status", status |-> StatusOfVal, exc |-> "-"] /\ pc' = "done"
          [] cfg.re = "other"   -> out' = [k |-> "status", status |-> "otherOrSame:" \o StatusOfVal, exc |-> "-"] /\ pc' = "done"
-         [] cfg.re \in {"raises", "nonresp"} -> pc' = "fallback" /\ UNCHANGED out
+         [] cfg.re \in {"raises", "nonresp", "raiseshttp"} -> pc' = "fallback" /\ UNCHANGED out
     /\ UNCHANGED <<cfg, hist, cur, val, excs>>
 
 \* `except Exception: ret = default_render_error(...)` - the same error, default rendering
